@@ -146,7 +146,15 @@ where
         return Ok(());
     }
     let keys = Arc::new(gen_keys::<K>(n, spec.key_style));
-    let values = Arc::new(gen_values::<W>(n, spec.val_kind, spec.val_bits));
+    // a value source may be longer than the key source (the crate's own tests pass `0..`): the surplus values,
+    // here larger than every used one, must not influence the function
+    let mut values = gen_values::<W>(n, spec.val_kind, spec.val_bits);
+    let surplus = [0usize, 1, 0, 3][(spec.cfg.seed % 4) as usize];
+    for _ in 0..surplus {
+        values.push(W::from64(u64::MAX));
+    }
+    cx.label_if(surplus > 0, "surplus_values");
+    let values = Arc::new(values);
     let (_f, rewinds) = build_and_verify::<K, W, D, S, E>(cx, &spec.cfg, &keys, &values, "first configuration")?;
     cx.label_if(rewinds > 64, "attempts>64");
     cx.label_if(rewinds >= 1, "retry_pass>=1");
